@@ -908,9 +908,13 @@ class Interp:
                     zst[loc] = ('fn', m.strip())
                 elif t == '()':
                     zst[loc] = ('unit', None)
+                elif t.startswith('{closure@') and t.endswith('}') and loc > f.nargs:
+                    # a capture-less closure is zero-sized too: it may be called without ever being
+                    # assigned (closures with captures are assigned before use and overwrite this)
+                    zst[loc] = ('closure', t)
             f._zst_locals = zst
         for loc, (kind, path) in zst.items():
-            fr.cells[loc].v = FnItem(path) if kind == 'fn' else UNIT
+            fr.cells[loc].v = FnItem(path) if kind == 'fn' else (Closure(path, ()) if kind == 'closure' else UNIT)
         for i, a in enumerate(args):
             fr.cells[i + 1].v = a
         bname = 'bb0'
